@@ -62,6 +62,24 @@ def gen(tier, seed):
         cmds = dbggen.gen_script(rnd, kinds, dbggen.origin_of(src), 12, maxlen=12, end="exit")
         cmds.insert(len(cmds) - 1, ("registers",))
         specs.append(("rand:" + p.__name__, rnd.choice([feat, 1]), src, [], cmds))
+    # (families added later come last: the sessions above stay what they were, seed for seed)
+    # subroutines that return to the following address with something else in R7 (link kept elsewhere, plain branch back)
+    for s7 in range(16):
+        src, feat0 = dbggen.p_return_other_reg(random.Random(s7))
+        for k in range(0, 10):
+            for x in (("step",), ("stepinto", 1), ("continue",), ("stepout",)):
+                pre = [("stepinto", k)] if k else []
+                specs.append(("return-other-reg", feat0, src, [], pre + [x, ("registers",), ("step",), ("registers",), ("exit",)]))
+    for p in dbggen.PROGRAMS_LATER:
+        for s7 in range(8):
+            src, feat0 = p(random.Random(s7))
+            orig = dbggen.origin_of(src)
+            for combo in itertools.product(alphabet(orig), repeat=2):
+                specs.append(("exh:" + p.__name__, feat0, src, [], list(combo) + [("registers",), ("exit",)]))
+            for feat in sorted({feat0, 1}):
+                for k in range(1, 13):
+                    for x in (("step",), ("stepout",), ("continue",), ("stepinto", 1), ("stepinto", 2)):
+                        specs.append(("at-every-pc:" + p.__name__, feat, src, [], [("stepinto", k), ("registers",), x, ("registers",), ("exit",)]))
     return rnd, specs
 
 
